@@ -106,6 +106,9 @@ pub struct ClientAbuse {
     pub followup: bool,
     /// full description of the abuse (phase / kind / variant @ connection state)
     pub feature: String,
+    /// the abuse is sent while sozu drains the connection after a soft stop (its own GOAWAY(NO_ERROR) is out)
+    #[serde(default)]
+    pub drain: bool,
 }
 impl ClientAbuse {
     /// The trigger part of violation keys: the feature without what the model does not look at
@@ -115,6 +118,7 @@ impl ClientAbuse {
     pub fn undefined_flag(&self) -> bool { self.feature.contains("+undefined_flag") }
     pub fn key(&self) -> String {
         let f = self.feature.split('@').next().unwrap_or("").trim_end_matches("/hi").replace("+undefined_flag", "");
+        if self.drain { return format!("draining/{}", f.splitn(2, '/').nth(1).unwrap_or("")); }
         match (&self.phase, &self.kind) {
             (Phase::NoPreface, Kind::Frame { .. }) => "no_preface/frame".to_string(),
             (Phase::NoSettings, Kind::Frame { ty, cls, tag, flags, .. }) if !(*ty == 4 && *cls == StreamClass::Zero && flags & 1 == 0 && matches!(tag, Tag::Plain | Tag::SettingsUnknownId | Tag::SettingsBadValue | Tag::SettingsWindowTooLarge | Tag::SettingsManyEntries)) => "no_settings/frame/not_a_settings_frame".to_string(),
@@ -241,8 +245,9 @@ pub fn build_abuser(ca: &ClientAbuse, h2: &H2Knobs, sibling_len: usize) -> (bool
             s.push(ClientOp::GoAway { code: ecode::NO_ERROR, last_stream: 0 });
         }
     }
+    if ca.drain { s.push(ClientOp::Sleep(DRAIN_ABUSE_AFTER)); }
     let rate = ca.rate.clone();
-    let even_high = ca.feature.ends_with("/hi");
+    let even_high = ca.feature.contains("/hi");
     match &ca.kind {
         Kind::Silent => {}
         Kind::Garbage { len, seed } => s.push(ClientOp::Abuse(AbuseOp::Garbage { len: *len, seed: *seed })),
@@ -319,6 +324,7 @@ fn config_requests(p: &NetPlan) -> Vec<Request> {
     lt.h2_max_header_list_size = set(p.h2.header_list, d.header_list);
     lt.h2_max_rst_stream_abusive_lifetime = set(p.h2.abusive_rst, d.abusive_rst).map(|x| x as u64);
     lt.h2_stream_idle_timeout_seconds = Some(p.h2.stream_idle_s);
+    if m.h2_deadline_secs.is_some() { lt.h2_graceful_shutdown_deadline_seconds = m.h2_deadline_secs; }
     v.push(RequestType::AddHttpsListener(lt.to_tls(None).unwrap()).into());
     let names: Vec<String> = m.clusters.iter().map(|c| c.host.clone()).chain(std::iter::once("nohost.test".to_string())).collect();
     v.push(RequestType::AddCertificate(AddCertificate { address: m.https_front.into(), certificate: CertificateAndKey { certificate: cert, certificate_chain: vec![], key, versions: vec![], names }, expired_at: None }).into());
@@ -342,6 +348,8 @@ pub fn run_net(np: &NetPlan, log: bool) -> MuxOutcome {
         World::install(&mut w);
         w.log_on = log;
         w.sndbuf_choices = plan.sndbufs.clone();
+        if plan.soft_stop_at_ns.is_some() { w.post_exit_drain_ns = 30 * SEC; }
+        let soft_stop_at = plan.soft_stop_at_ns;
         let reqs = config_requests(&np);
         let nclients = (plan.h1_clients.len() + plan.h2_clients.len()) as i64;
         let settle = plan.settle_ns;
@@ -352,6 +360,14 @@ pub fn run_net(np: &NetPlan, log: bool) -> MuxOutcome {
             m.send_all(reqs);
             m.push(MOp::Barrier);
             m.push(MOp::SetBoard("configured".into(), 1));
+            if let Some(t) = soft_stop_at {
+                // soft stop while the clients are active: the worker answers once its sessions are over and leaves its loop by itself
+                m.push(MOp::Sleep(t));
+                m.push(MOp::Call(Box::new(|w, _| { let now = w.now as i64; w.board_set("softstop_sent_t", now); vec![] })));
+                m.push(MOp::SoftStop);
+                m.push(MOp::BarrierFor(600 * SEC));
+                m.push(MOp::End);
+            }
             m.push(MOp::WaitBoard("clients_done".into(), nclients));
             m.push(MOp::Sleep(settle));
             m.push(MOp::Call(Box::new(|w, _| {
@@ -387,6 +403,10 @@ pub fn run_net(np: &NetPlan, log: bool) -> MuxOutcome {
             for (_, r) in &m.data.responses {
                 if r.status == sozu_command_lib::proto::command::ResponseStatus::Failure as i32 { out.config_failures.push(format!("{}: {}", r.id, r.message)); }
             }
+            if let Some((id, _, _)) = m.data.sent.iter().find(|(_, r, _)| matches!(r.request_type, Some(RequestType::SoftStop(_)))) {
+                out.softstop_final = m.data.responses.iter().find(|(_, r)| r.id == *id && r.status != sozu_command_lib::proto::command::ResponseStatus::Processing as i32).map(|(t, r)| (*t, r.status));
+            }
+            out.master_eof = m.data.eof;
         }
         for id in &h1_ids { let c: &H1Client = w.actor_ref(*id); out.h1_clients.push(ClientOutcome { rec: c.rec.clone(), responses: c.responses().clone(), partial: c.partial().cloned(), interim: c.parser.interim }); }
         for id in &h2_ids { let c: &H2Client = w.actor_ref(*id); out.h2_clients.push(c.record()); }
@@ -401,6 +421,7 @@ pub fn run_net(np: &NetPlan, log: bool) -> MuxOutcome {
         out.max_served = w.max_served;
         out.leak_accepted = w.board_get("leak_accepted");
         out.leak_connected = w.board_get("leak_connected");
+        out.softstop_sent_t = w.board_get("softstop_sent_t") as u64;
         out.log = std::mem::take(&mut w.log);
         out
     })
@@ -430,6 +451,9 @@ pub fn resp_map_h1(lens: &[(u64, usize, u64)]) -> BTreeMap<u64, RespSpec> {
     m
 }
 
+/// soft stop this long after the configuration (draining variant); the abuse follows after a pause
+pub const SOFT_STOP_AT: u64 = 60 * MS;
+pub const DRAIN_ABUSE_AFTER: u64 = 150 * MS;
 pub const ABUSER_LINGER: u64 = 30 * SEC;
 pub const ABUSER_GIVE_UP: u64 = 75 * SEC;
 pub const PROBE_AT: u64 = 80 * SEC;
